@@ -898,8 +898,12 @@ class CppFE:
             if f.repeat:
                 m = re.match(r'^(?:const )?std::vector<(.*?)(?:, std::allocator<.*>)?>$', strip_cv(ft))
                 et = m.group(1) if m else '?'
+                if not m:
+                    raise MissingMember('packet %s: the member of repeated field %s is no list (C++ type %s)' % (packet.name, f.name, ft))
                 o.f[fn] = CVec([self.elem_to_lang(sem, x, et) for x in v])
             else:
+                if strip_cv(ft).startswith('std::vector<'):
+                    raise MissingMember('packet %s: the member of plain field %s is a list (C++ type %s)' % (packet.name, f.name, ft))
                 o.f[fn] = self.elem_to_lang(sem, v, ft)
         return o
 
